@@ -279,3 +279,4 @@ pub fn catch<T, F: FnOnce() -> T + std::panic::UnwindSafe>(f: F) -> Result<T, St
 }
 
 pub mod gen;
+pub mod net;
